@@ -35,11 +35,26 @@ META = {
 class NopDom(Forward):
     """state: frozenset of names known to differ from the padding literal on this path"""
 
-    def __init__(self, f, literal):
+    def __init__(self, f, literal, ctx=None):
         super().__init__(f.node)
         self.f = f
         self.lit = literal
+        self.ctx = ctx
         self.yields = []
+
+    def _is_lit(self, node):
+        if isinstance(node, ast.Constant):
+            return node.value == self.lit
+        if isinstance(node, (ast.Name, ast.Attribute)) and self.ctx is not None:
+            if isinstance(node, ast.Name) and node.id in self.f.locals:
+                return False
+            r = self.ctx.db.resolve_dotted(self.f.module, node)
+            if r and r[0] == "global":
+                try:
+                    return self.ctx.fold.global_value(r[1], r[2]) == self.lit
+                except Exception:
+                    return False
+        return False
 
     def join(self, a, b):
         return a & b
@@ -47,9 +62,9 @@ class NopDom(Forward):
     def test(self, expr, state):
         if isinstance(expr, ast.Compare) and len(expr.ops) == 1:
             l, r = expr.left, expr.comparators[0]
-            if isinstance(r, ast.Name) and isinstance(l, ast.Constant):
+            if self._is_lit(l) and isinstance(r, ast.Name) and r.id in self.f.locals:
                 l, r = r, l
-            if isinstance(l, ast.Name) and isinstance(r, ast.Constant) and r.value == self.lit:
+            if isinstance(l, ast.Name) and l.id in self.f.locals and self._is_lit(r):
                 if isinstance(expr.ops[0], ast.Eq):
                     return state, state | {l.id}
                 if isinstance(expr.ops[0], ast.NotEq):
@@ -168,13 +183,15 @@ def run(ctx, rep):
         rep.floor_failures.append("expected >= 3 symbol consumers (main loop, drain loop, index reader); found %d" % n_cons)
     # ---- N1 (c): every yield of G is dominated by the negated [nop] test
     for g in sorted(gfuncs, key=lambda x: x.qual):
-        nd = NopDom(g, SPEC.NOP)
+        nd = NopDom(g, SPEC.NOP, ctx)
         nd.run(frozenset())
         if not nd.yields:
             raise AnalysisError("generator %s has no yield" % g.qual)
         for y, state in nd.yields:
             val = y.value
-            ok = isinstance(val, ast.Name) and val.id in state
+            # the yielded token is the filtered one, possibly rewritten: every local token variable it mentions is filtered
+            loc_names = {n.id for n in ast.walk(val) if isinstance(n, ast.Name) and n.id in g.locals and n.id not in g.params} if val is not None else set()
+            ok = bool(loc_names) and loc_names <= set(state)
             rep.ob("N1", ok, y, g, construct="yield %s" % (unparse(val) if val is not None else ""),
                    how="dominated by the negated test against the literal '[nop]'",
                    witness=None if ok else "a token can be yielded without having been compared with '[nop]': padding reaches the decoder on this path",
@@ -255,6 +272,8 @@ def check_uses(ctx, rep, f, name, role, gfuncs, seen):
                         check_uses(ctx, rep, g, pn, "msg", gfuncs, seen)
             else:
                 why = "raw input is consumed by %s" % fn
+        elif isinstance(p, ast.FormattedValue):
+            ok = True   # interpolated into message text
         elif isinstance(p, ast.Assign) and role == "tok-input" and p.value is n:
             ok = True   # alias that is iterated below (list form)
         elif isinstance(p, ast.Compare) and role in ("raw", "msg", "fragment"):
